@@ -48,28 +48,20 @@ Definition camel_join_safe (p : path) : bool :=
   | _, _ => false
   end.
 
-(* with a dialsenv tag only the existence of a derived name is needed *)
+(* with a (non-empty) dialsenv tag only the existence of a derived tag value
+   is needed; an explicitly empty dialsenv tag makes env.go panic *)
 Definition name_guard (p : path) : bool :=
   if has_env_tag p then
     match raw_parts p with
-    | Ok parts => nonempty (encode_upper_camel_t parts) &&
-                  match decode_go_tags (encode_upper_camel_t parts) with
-                  | Ok ws => nonempty (encode_upper_snake ws) | _ => false end
+    | Ok parts => nonempty (encode_upper_camel_t parts)
     | _ => false
     end
-  else camel_join_safe p.
+  else match tag_lookup dialsenv_tag (leaf_tags p) with
+       | Some _ => false
+       | None => camel_join_safe p
+       end.
 
-(* no alias tags anywhere (aliases are property C14) *)
-Fixpoint alias_free_ty (keys : list str) (t : ty) {struct t} : bool :=
-  match t with
-  | TPtr (TStruct fs _) => alias_free keys fs
-  | TStruct fs _ => alias_free keys fs
-  | _ => true
-  end
-with alias_free (keys : list str) (fs : fields) {struct fs} : bool :=
-  match fs with
-  | FNil => true
-  | FCons _ tags _ t r =>
-      match alias_split keys tags with None => true | Some _ => false end &&
-      alias_free_ty keys t && alias_free keys r
-  end.
+Definition env_supported (pfs : fields) : bool :=
+  alias_free env_alias_keys pfs && wf_fields pfs.
+
+Definition is_set (v : val) : bool := negb (is_vnil v).
